@@ -186,7 +186,7 @@ CLAIMED = {
          "operations run re-entrantly at every lock-free point of a running publish), compared label by label with the model; real QMI_Context thread schedules under dsched; independent "
          "event-log oracle (each receiver queue = projection of the global publish/subscribe log).",
     note="Trusted: Coq kernel+vm_compute; hand model; H2 harness network and dsched; fresh request ids; atomic lock regions; honest peers. Half of the real-context thread schedules add line-level switch points inside five SignalManager "
-         "methods. The H2 stub router keeps the message OBJECTS until the handler invocation is over and transmits them as the socket thread would (re-use or mutation of a message after hand-off is detected); fixed buckets with 2-3 subscriber contexts on one signal and with prefix-named signals; 300 schedules of one publisher context fanning out to 2-3 subscriber contexts. Object removal is one model step: hypothesis = the subscription clean-up runs while the name is still reserved (no same-named object can be created between the release of the name and the clean-up of the previous incarnation); it is stated in the model and checked by Corr.lifecycle_ok on the recorded object-map events of every schedule of the remove-and-re-create family (240 schedules of real contexts with a slow release and line-level switch points in remove_rpc_object / make_rpc_object / handle_object_removed, exactly-once in-order oracle for the receivers of the re-created publisher). Queue overflow (C09) and pickling are outside.",
+         "methods. The H2 stub router keeps the message OBJECTS until the handler invocation is over and transmits them as the socket thread would (re-use or mutation of a message after hand-off is detected); fixed buckets with 2-3 subscriber contexts on one signal and with prefix-named signals; 300 schedules of one publisher context fanning out to 2-3 subscriber contexts. Object removal is one model step: hypothesis = the subscription clean-up runs while the name is still reserved (no same-named object can be created between the release of the name and the clean-up of the previous incarnation); it is stated in the model and checked by Corr.lifecycle_ok on the recorded object-map events of every schedule of the remove-and-re-create family (240 schedules of real contexts with a slow release and line-level switch points in remove_rpc_object / make_rpc_object / handle_object_removed, exactly-once in-order oracle for the receivers of the re-created publisher). Queue overflow (C09) and pickling are outside. Correspondence compares handler outputs per peer, API outcomes and tables up to a consistent renaming of request ids, and accepts a subscribe that is refused either before or after a request is registered (same exception, nothing stored). The H2 stub context answers the public QMI_Context surface from the simulated network and reports any further dependency as a broken tie.",
     technique="inductive invariants over an executable transition system; H2 message simulation + deterministic scheduler"),
  "C08": dict(category="proof", design_ref="7 (C08)",
     text="14 Coq theorems (all closed). Main theorem C08_quiescent, proved in full for two complete contexts and every finite history (subscribe, unsubscribe incl. re-subscribe while the "
@@ -197,7 +197,7 @@ CLAIMED = {
          "either end; cleanup after object removal and after peer loss at both ends; every blocked subscribe is accounted for through every step and returns once channels are empty. "
          "Tie: as C07 (about 2400 cases per run, probe publications at quiescent points, 900 schedules of blocked subscribers while the peer disconnects / stops / removes the publisher).",
     note="Trusted: as C07. Proof covers two contexts and star topologies at handler granularity; a context subscribed to several publisher contexts at once is covered by correspondence and oracle only; a reconnect is assumed only after both "
-         "ends have closed. Peer loss with several subscriber contexts on one signal is covered by a fixed fan-out bucket. Same removal hypothesis and tie as C07 (160 schedules of the remove-and-re-create family); a subscribe that joins a local subscription while the removal notice of the previous incarnation of a same-named publisher is still in flight is ended by that notice (modelled; re-creation of a name is outside the property's quantifier). One defect below handler granularity (removal notice overtaking the subscribe reply: stale subscription) was found by the thread-level oracle and repaired by a fix: commit.",
+         "ends have closed. Peer loss with several subscriber contexts on one signal is covered by a fixed fan-out bucket. Same removal hypothesis and tie as C07 (160 schedules of the remove-and-re-create family); a subscribe that joins a local subscription while the removal notice of the previous incarnation of a same-named publisher is still in flight is ended by that notice (modelled; re-creation of a name is outside the property's quantifier). Correspondence compares handler outputs per peer, API outcomes and tables up to a consistent renaming of request ids, and accepts a subscribe that is refused either before or after a request is registered (same exception, nothing stored). The H2 stub context answers the public QMI_Context surface from the simulated network and reports any further dependency as a broken tie. One defect below handler granularity (removal notice overtaking the subscribe reply: stale subscription) was found by the thread-level oracle and repaired by a fix: commit.",
     technique="per-signal protocol invariant over a two-node transition system; H2 simulation + deterministic scheduler"),
  "C17": dict(category="proof", design_ref="7 (C17)",
     text="PARTIAL. 14 Coq theorems (all closed; all inputs / histories / interleavings) on an executable model of the parts of the property that are logic: (a) text-header attribute codec "
